@@ -529,7 +529,7 @@ func (e *SpecEnv) slice(n *SSlice) Val {
 				h := e.eval(n.Hi, types.Typ[types.Int])
 				hi = c.toIdx(h.S, h.T)
 			}
-			return Val{T: v.T, S: fmt.Sprintf("(mkstr (sarr %s) %s %s)", v.S, c.idxAdd(fmt.Sprintf("(soff %s)", v.S), lo), c.idxSub(hi, lo))}
+			return Val{T: v.T, S: fmt.Sprintf("(mkstr (sarr %s) %s %s (sown %s))", v.S, c.idxAdd(fmt.Sprintf("(soff %s)", v.S), lo), c.idxSub(hi, lo), v.S)}
 		}
 	case *types.Slice:
 		hi := fmt.Sprintf("(xlen %s)", v.S)
@@ -857,6 +857,12 @@ func (e *SpecEnv) call(n *SCall, hint types.Type) Val {
 			r = fmt.Sprintf("(sbase %s)", v.S)
 		}
 		return Val{T: types.Typ[types.Bool], S: fmt.Sprintf("(and (> %s 0) (>= (born %s) %s))", r, r, c.now(e.pre))}
+	case "aliases": // base reference of the mutable byte array a string value is a view of (0: none)
+		v := e.eval(n.Args[0], nil)
+		if !isString(v.T) {
+			sfail("aliases() takes a string")
+		}
+		return Val{T: I, S: fmt.Sprintf("(sown %s)", v.S)}
 	case "same": // structural (bitwise) equality of two values of the same sort
 		a := e.eval(n.Args[0], nil)
 		b := e.eval(n.Args[1], a.T)
@@ -889,7 +895,7 @@ func (e *SpecEnv) call(n *SCall, hint types.Type) Val {
 		if isString(t) && isByteSlice(v.T) {
 			hn, hs := c.heapNameArr(types.Typ[types.Uint8])
 			arr := fmt.Sprintf("(select %s (sbase %s))", c.heap(e.st, hn, hs), v.S)
-			return Val{T: t, S: fmt.Sprintf("(mkstr %s (xoff %s) (xlen %s))", arr, v.S, v.S)}
+			return Val{T: t, S: fmt.Sprintf("(mkstr %s (xoff %s) (xlen %s) 0)", arr, v.S, v.S)}
 		}
 		if types.Identical(t.Underlying(), v.T.Underlying()) {
 			return Val{T: t, S: v.S}
